@@ -12,7 +12,9 @@ pub mod c10;
 pub mod c18;
 pub mod c19;
 pub mod c20;
+pub mod c21;
 pub mod c22;
+pub mod c24;
 pub mod c_engine;
 pub mod c_fd;
 pub mod fd;
@@ -39,7 +41,9 @@ pub fn dispatch(id: &str, ctx: &mut ev::Ctx) -> bool {
         "C18" => c18::run(ctx),
         "C19" => c19::run(ctx),
         "C20" => c20::run(ctx),
+        "C21" => c21::run(ctx),
         "C22" => c22::run(ctx),
+        "C24" => c24::run(ctx),
         _ => return false,
     }
     true
